@@ -7,6 +7,9 @@ G_route_N == [h \in G_route_Ops |-> 1]
 G_stream_Ops == {"a", "b", "c"}
 G_stream_Kind == [h \in G_stream_Ops |-> IF h = "c" THEN "call" ELSE "sub"]
 G_stream_N == [h \in G_stream_Ops |-> 1]
+G_tight_Ops == {"a", "b", "c", "d"}
+G_tight_Kind == [h \in G_tight_Ops |-> IF h \in {"a", "b"} THEN "sub" ELSE "call"]
+G_tight_N == [h \in G_tight_Ops |-> 1]
 G_batch_Ops == {"a", "b", "c"}
 G_batch_Kind == [h \in G_batch_Ops |-> IF h = "c" THEN "call" ELSE "batch"]
 G_batch_N == [h \in G_batch_Ops |-> IF h = "a" THEN 3 ELSE 2]
